@@ -382,7 +382,7 @@ func (P *Prog) checkDefaultCoercer(r *Result, fn *ssa.Function, obj ssa.Value) {
 	var stored ssa.Value
 	eachInstr(fn, func(_ *ssa.BasicBlock, _ int, in ssa.Instruction) {
 		if st, ok := in.(*ssa.Store); ok {
-			if b, f := fieldVar(st.Addr); f != nil && f.Name() == "coercer" && cv(b) == obj {
+			if b, f := fieldVar(st.Addr); f != nil && P.roleName(f) == "coercer" && cv(b) == obj {
 				stored = st.Val
 			}
 		}
@@ -583,6 +583,32 @@ func (P *Prog) checkIndexAgreement(r *Result) {
 			sprintfOK := false
 			for b := range loop.body {
 				for _, in := range b.Instrs {
+					// `"[" + strconv.Itoa(i) + "]"` is the same segment as fmt.Sprintf("[%d]", i)
+					if bo, isBO := in.(*ssa.BinOp); isBO && bo.Op == token.ADD {
+						if rs, okR := constString(bo.Y); okR && rs == "]" {
+							if inner, okI := bo.X.(*ssa.BinOp); okI && inner.Op == token.ADD {
+								if ls, okL := constString(inner.X); okL && ls == "[" {
+									if cnv, okC := inner.Y.(*ssa.Call); okC {
+										if cc := callOf(cnv); cc.static != nil && (cc.static.String() == "strconv.Itoa" || cc.static.String() == "strconv.FormatInt") {
+											a := cnv.Call.Args[0]
+											if cvt, isCvt := a.(*ssa.Convert); isCvt {
+												a = cvt.X
+											}
+											base10 := cc.static.String() == "strconv.Itoa"
+											if !base10 {
+												if k, okK := constInt(cnv.Call.Args[1]); okK && k == 10 {
+													base10 = true
+												}
+											}
+											if a == ssa.Value(iv) && base10 {
+												sprintfOK = true
+											}
+										}
+									}
+								}
+							}
+						}
+					}
 					c2, ok := in.(*ssa.Call)
 					if !ok {
 						continue
